@@ -10,30 +10,61 @@ deduplicated.  The oracle runs inside the fake GitHub at the instant a merge PUT
 looks only at the world's truth.
 """
 import copy
+import gc
 import hashlib
+import pickle
 
 from vf import par
 
 NEEDS_SERVICES = True
 
 # Prefixes that spend no search depth on setup (DESIGN 2.2 "non-initial states for free").
-ROOTS = (
-    (),
-    # both PRs approved, CI has seen them and started both test batches
-    (('review', 1, 'A'), ('review', 2, 'A'), ('tick',)),
-    # ... and both test batches have passed, callbacks not yet delivered
-    (('review', 1, 'A'), ('review', 2, 'A'), ('tick',), ('batch', 1, 's'), ('batch', 2, 's')),
+# Histories are ','-joined event codes (vf.ci_world.enc): r1A = PR 1 approved, t = CI update pass,
+# b1s = batch 1 succeeds, c = batch callback delivered, ...
+ROOTS2 = (
+    '',
+    'r1A,r2A,t',  # both PRs approved, CI has seen them and started both test batches
+    'r1A,r2A,t,b1s,b2s',  # ... and both test batches have passed, callbacks not yet delivered
 )
-DEPTH = {'quick': 6, 'thorough': 8}
+ROOTS1 = ('', 'r1A,t', 'r1A,t,b1s')
+# name -> (world configuration, roots, depth per tier)
+CONFIGS = {
+    'two-prs': ({'prs': (1, 2)}, ROOTS2, {'quick': 4, 'thorough': 5}),
+    'one-pr': ({'prs': (1,)}, ROOTS1, {'quick': 6, 'thorough': 8}),
+    # GitHub webhooks delivered instantly (atomically with the change that causes them); batch callbacks still lag
+    'two-prs-prompt-webhooks': ({'prs': (1, 2), 'prompt_hooks': True}, ROOTS2, {'quick': 3, 'thorough': 5}),
+}
 STATE_CAP = 3_000_000
+
+
+def _hkey(h):
+    return (h.count(','), h)
 
 
 def _digest(canon):
     return hashlib.blake2b(repr(canon).encode(), digest_size=12).digest()
 
 
+def _guard(fn):
+    """HarnessError is a BaseException (so the code under test cannot swallow it); outside the CI step it
+    must become an ordinary exception: pool workers survive it and the runner reports exit 2."""
+    import functools
+
+    @functools.wraps(fn)
+    def wrapped(*a, **k):
+        from vf import ci_world as cw
+
+        try:
+            return fn(*a, **k)
+        except cw.HarnessError as e:
+            raise RuntimeError(f'harness gap: {e}') from e
+
+    return wrapped
+
+
+@_guard
 def _expand_chunk(items):
-    """items: [(history, expected_digest | None)].  Returns successors and per-chunk statistics."""
+    """items: [(world cfg, history, expected_digest | None)].  Returns successors and per-chunk statistics."""
     from vf import ci_world as cw
 
     succ = []
@@ -41,25 +72,38 @@ def _expand_chunk(items):
     viols = {}
     merges_seen = []
     n_trans = 0
-    for hist, expected in items:
-        s, _ = cw.replay_history(hist)
-        d0 = _digest(s.canon())
+    for cfg, hist, expected in items:
+        s, _ = cw.replay_history(hist, cfg=cfg)
+        ci0 = _digest(s.ci_canon())
+        d0 = _digest((s.world.canon(), ci0))
         if expected is not None and d0 != expected:
             raise RuntimeError(f'nondeterminism not owned: replaying {hist} on fresh objects gives a different state')
+        blob = None
         for ev in s.enabled():
-            s2 = copy.deepcopy(s)
-            v, c, merged = s2.apply(ev)
             n_trans += 1
-            h2 = hist + (ev,)
+            h2 = f'{hist},{cw.enc(ev)}' if hist else cw.enc(ev)
+            if ev[0] in cw.Sys.WORLD_EVENTS and (ev[0] in ('ext', 'batch') or not s.world.cfg['prompt_hooks']):
+                # a pure world event: the CI objects are not touched, so apply / read / undo in place
+                snap = s.world.snapshot()
+                v, c, merged = s.apply(ev)
+                d = _digest((s.world.canon(), ci0))
+                s.world.restore(snap)
+                if v or merged or c:
+                    raise RuntimeError(f'world event {ev} reached the CI')
+            else:
+                if blob is None:
+                    blob = pickle.dumps(s, protocol=5)
+                s2 = pickle.loads(blob)
+                v, c, merged = s2.apply(ev)
+                d = _digest((s2.world.canon(), _digest(s2.ci_canon())))
             for k, n in c.items():
                 counters[k] = counters.get(k, 0) + n
             for sig, msg in v:
                 old = viols.get(sig)
-                if old is None or (len(h2), h2) < (len(old[0]), old[0]):
+                if old is None or _hkey(h2) < _hkey(old[0]):
                     viols[sig] = (h2, msg)
             if merged and not v and len(merges_seen) < 2:
                 merges_seen.append(h2)
-            d = _digest(s2.canon())
             if d != d0:
                 succ.append((d, h2))
             else:
@@ -76,14 +120,17 @@ def _selfcheck():
     """The fake GitHub must refuse what the real one refuses; the oracle must stay silent on a clean merge."""
     from vf import ci_world as cw
 
-    clean = (('review', 1, 'A'), ('ext', 1, 's'), ('tick',), ('batch', 1, 's'), ('callback',))
+    clean = cw.dec_history('r1A,t,b1s,c')
     s, res = cw.replay_history(clean)
     if res[-1][2] != [1] or res[-1][0]:
         raise RuntimeError(f'self-check: the plain approve/test/merge history did not merge cleanly: {res[-1]}')
     if s.world.target != 'M1' or s.world.prs[1]['state'] != 'merged':
         raise RuntimeError('self-check: merge did not move the target branch')
     # stale head: the CI's `sha` no longer matches -> GitHub answers 409, nothing is merged
-    stale = (('review', 1, 'A'), ('tick',), ('batch', 1, 's'), ('push', 1), ('callback',))
+    stale = cw.dec_history('r1A,t,b1s,p1,c')
+    for ev in s.enabled():
+        if cw.dec(cw.enc(ev)) != ev:
+            raise RuntimeError(f'self-check: event coding is not a bijection for {ev}')
     s, res = cw.replay_history(stale)
     if res[-1][2] or res[-1][1].get('merge_rejected_409_head_moved') != 1:
         raise RuntimeError(f'self-check: merge with a stale head sha was not rejected: {res[-1]}')
@@ -96,16 +143,16 @@ def _selfcheck():
         raise RuntimeError('self-check: deepcopy successor differs from fresh replay')
 
 
-def _bfs(depth, seed, procs):
-    visited = {}
-    frontier = []
-    for r in ROOTS:
-        from vf import ci_world as cw
+def _bfs(cfg, roots, depth, seed, procs):
+    from vf import ci_world as cw
 
-        s, _ = cw.replay_history(r)
-        d = _digest(s.canon())
+    visited = set()
+    frontier = []
+    for r in roots:
+        s, _ = cw.replay_history(r, cfg=cfg)
+        d = _digest((s.world.canon(), _digest(s.ci_canon())))
         if d not in visited:
-            visited[d] = r
+            visited.add(d)
             frontier.append((r, d))
     counters, viols, samples = {}, {}, []
     transitions = 0
@@ -114,8 +161,13 @@ def _bfs(depth, seed, procs):
     for level in range(depth):
         if not frontier:
             break
-        items = par.rotate(sorted(frontier), seed)
-        rows = par.pmap(_expand_chunk, _chunks(items, procs), procs, chunksize=1)
+        items = [(cfg, h, d) for h, d in par.rotate(sorted(frontier), seed)]
+        gc.collect()
+        gc.freeze()  # forked workers must not copy-on-write the whole heap when their collector runs
+        try:
+            rows = par.pmap(_expand_chunk, _chunks(items, procs), procs, chunksize=1)
+        finally:
+            gc.unfreeze()
         nxt = {}
         for succ, c, v, ms, nt in rows:
             transitions += nt
@@ -123,7 +175,7 @@ def _bfs(depth, seed, procs):
                 counters[k] = counters.get(k, 0) + n
             for sig, (h, msg) in v.items():
                 old = viols.get(sig)
-                if old is None or (len(h), h) < (len(old[0]), old[0]):
+                if old is None or _hkey(h) < _hkey(old[0]):
                     viols[sig] = (h, msg)
             samples.extend(ms)
             for d, h in succ:
@@ -132,87 +184,120 @@ def _bfs(depth, seed, procs):
                 old = nxt.get(d)
                 if old is None or h < old:
                     nxt[d] = h
-        for d, h in nxt.items():
-            visited[d] = h
+        visited.update(nxt)
         frontier = [(h, d) for d, h in nxt.items()]
         levels.append(len(frontier))
         if len(visited) > STATE_CAP:
             capped = True
             break
-    samples = sorted(samples, key=lambda h: (len(h), h))[:3]
-    return visited, transitions, counters, viols, samples, levels, capped
+    samples = sorted(samples, key=_hkey)[:2]
+    return len(visited), transitions, counters, viols, samples, levels, capped
 
 
-def _with_protection(history, sig):
+def _with_protection(history, sig, cfg):
     """Would GitHub itself have refused this merge if branch protection applied to the CI's token?"""
     from vf import ci_world as cw
 
-    _, res = cw.replay_history(history, enforce=True)
+    _, res = cw.replay_history(history, enforce=True, cfg=cfg)
     return any(s == sig for v, _, _ in res for s, _ in v)
 
 
+@_guard
 def check(tier, seed, procs):
+    from vf import ci_world as cw
+
     _selfcheck()
-    depth = DEPTH[tier]
-    visited, transitions, counters, viols, samples, levels, capped = _bfs(depth, seed, procs)
+    states = transitions = 0
+    counters, viols, samples, per_cfg = {}, {}, [], {}
+    capped = False
+    for name, (cfg, roots, depths) in CONFIGS.items():
+        depth = depths[tier]
+        n, tr, c, v, sm, levels, cap = _bfs(cfg, roots, depth, seed, procs)
+        states += n
+        transitions += tr
+        capped = capped or cap
+        for k, x in c.items():
+            counters[k] = counters.get(k, 0) + x
+        for sig, (h, msg) in v.items():
+            old = viols.get(sig)
+            if old is None or _hkey(h) < _hkey(old[0]):
+                viols[sig] = (h, msg, name)
+        samples.extend((name, h) for h in sm)
+        per_cfg[name] = {'depth': depth, 'roots': list(roots), 'states': n, 'transitions': tr, 'states_per_level': levels,
+                         'merges_judged': c.get('merges', 0), 'violation_signatures': sorted(v)}
+        if cap:
+            per_cfg[name]['cap'] = f'state cap {STATE_CAP} hit after level {len(levels) - 1}'
     violations = []
-    for sig, (h, msg) in sorted(viols.items(), key=lambda kv: (len(kv[1][0]), kv[1][0])):
-        still = _with_protection(h, sig)
-        msg = (f'{msg}; history={[list(e) for e in h]}; '
+    for sig, (h, msg, name) in sorted(viols.items(), key=lambda kv: (_hkey(kv[1][0]), kv[0])):
+        events = [list(e) for e in cw.dec_history(h)]
+        still = _with_protection(h, sig, CONFIGS[name][0])
+        msg = (f'{msg}; history={events}; '
                + ('GitHub accepts this merge even when branch protection (required review + required checks) binds the CI token'
                   if still else
-                  'reproduces when the CI token is not bound by branch protection (with enforcement GitHub answers 405)'))
-        violations.append({'signature': sig, 'message': msg, 'replay': {'history': [list(e) for e in h], 'signature': sig}})
+                  'needs a CI token that branch protection does not bind (with enforcement GitHub answers 405)'))
+        violations.append({'signature': sig, 'message': msg,
+                           'replay': {'config': name, 'history': events, 'signature': sig}})
     merges = counters.get('merges', 0)
     cov = {
-        'states': len(visited),
+        'states': states,
         'transitions': transitions,
         'traces_validated_against_impl': transitions,
-        'samples': [{'history': [list(e) for e in h], 'outcome': 'merged, every clause true in the world'} for h in samples],
+        'samples': [{'config': name, 'history': [list(e) for e in cw.dec_history(h)],
+                     'outcome': 'merged; every clause of the statement true in the world'} for name, h in samples[:4]],
         'exhaustive': not capped,
-        'bounds': f'2 PRs x 2 head shas, <= 2 external target moves, 1 external status context, depth {depth} from each of '
-                  f'{len(ROOTS)} root histories (lengths {[len(r) for r in ROOTS]})',
-        'max_depth': depth,
-        'states_per_level': levels,
+        'bounds': '; '.join(
+            f'{name}: PRs {list(CONFIGS[name][0]["prs"])} x 2 head shas, <= {cw.MAX_TARGET_MOVES} external target moves, '
+            f'1 external status context, every history of <= {per_cfg[name]["depth"]} events after each of the roots '
+            f'{per_cfg[name]["roots"]}' for name in CONFIGS),
+        'configurations': per_cfg,
         'merges_judged': merges,
         'merges_with_every_clause_true': counters.get('merges_clean', 0),
         'merge_puts': counters.get('merge_puts', 0),
         'merge_puts_rejected_stale_head_409': counters.get('merge_rejected_409_head_moved', 0),
+        'ci_update_passes': counters.get('ticks', 0) + counters.get('batch_callbacks', 0)
+        + sum(x for k, x in counters.items() if k.startswith('webhooks_')),
         'counters': dict(sorted(counters.items())),
         'violation_signatures': sorted(viols),
     }
-    if capped:
-        cov['cap'] = f'state cap {STATE_CAP} hit; levels completed: {len(levels) - 1}'
     vac = None
     if merges == 0 or counters.get('merges_clean', 0) == 0:
         vac = f'no (clean) merge was ever performed ({merges=})'
     elif counters.get('merge_rejected_409_head_moved', 0) == 0:
         vac = 'no history reached a merge attempt with a stale head sha'
+    elif counters.get('builds_started', 0) == 0 or counters.get('batch_callbacks', 0) == 0:
+        vac = 'no test batch was started / no batch callback delivered'
     return {
         'coverage': cov,
         'violations': violations,
         'assumptions': [
-            'transitions are atomic: one world event, webhook delivery or CI update pass runs to completion (no interleaving inside a pass)',
+            'transitions are atomic: one world event, one webhook / batch-callback delivery or one CI update pass runs to '
+            'completion (no interleaving inside a pass)',
             'fake GitHub (vf/ci_world.py): refs, open-PR list, GraphQL reviewDecision + statusCheckRollup of the head commit, '
-            'status POST, merge PUT = 405 if not open / 409 if sha is not the current head; it does not itself enforce reviews or '
-            'required checks unless replayed with enforce=True (each violation message says which)',
-            'every reported status context is a required one (isRequired=true); the CI deliberately ignores non-required contexts and that is not judged',
-            'fake batch service under the real hailtop BatchClient/Batch; fake DB answers the SQL of ci/github.py, ci/utils.py, ci/ci.py by text pattern',
-            'PR._start_build runs its real body; check_shell, check_shell_output, BuildConfiguration, open(build.yaml), secrets are substituted; '
-            'rich progress bar replaced by a no-op; git merge never conflicts',
-            'watched branch is mergeable, not deployable, not frozen; PR authors are authorized users; webhooks of one kind for one PR coalesce; '
-            'GitHub sends no status/check_run webhooks to the CI (no handler is registered for them)',
+            'status POST, merge PUT = 405 if not open / 409 if sha is not the current head; it does not itself enforce reviews '
+            'or required checks (each violation message says whether it survives enforcement)',
+            'every reported status context is a required one (isRequired=true); the CI deliberately ignores non-required '
+            'contexts and that is not judged',
+            'fake batch service under the real hailtop BatchClient/Batch; fake DB answers the SQL of ci/github.py, ci/utils.py, '
+            'ci/ci.py by text pattern',
+            'PR._start_build runs its real body; check_shell, check_shell_output, BuildConfiguration, open(build.yaml), secrets '
+            'are substituted in ci.github; the rich progress bar is a no-op; git merge never conflicts',
+            'watched branch is mergeable, not deployable, not frozen; PR authors are authorized users; undelivered GitHub '
+            'webhooks of one kind coalesce; GitHub sends no status/check_run webhooks (the CI registers no handler for them)',
+            '"its test batch" = a batch of the batch service with test=1 and source_sha = the head; it must have succeeded '
+            '("fully tested") with target_sha = the target ref at the instant of the merge',
             'functional shims: gidgethub (exceptions, sansio.Event, routing.Router), prometheus_client, aiohttp_session, jinja2',
         ],
         'vacuous': vac,
     }
 
 
+@_guard
 def replay(obj):
     from vf import ci_world as cw
 
+    cfg = CONFIGS[obj.get('config', 'two-prs')][0]
     hist = [tuple(e) for e in obj['history']]
-    _, res = cw.replay_history(hist, enforce=bool(obj.get('enforce', False)))
+    _, res = cw.replay_history(hist, enforce=bool(obj.get('enforce', False)), cfg=cfg)
     hits = [(s, m) for v, _, _ in res for s, m in v if obj.get('signature') in (None, s)]
     if hits:
         return False, f'{hits[0][0]}: {hits[0][1]}'
